@@ -43,6 +43,16 @@ int main(int argc, char** argv) {
         Vector_<SpatialVec> bias, A, JUD; m.calcBiasForSystemJacobian(s, bias); m.calcBodyAccelerationFromUDot(s, UD, A); m.multiplyBySystemJacobian(s, UD, JUD);
         e = 0; sc = 0; for (int b = 0; b < NB; ++b) { e += (A[b] - JUD[b] - bias[b]).norm(); sc += A[b].norm(); }
         chk("C04", "A=J*udot+bias", e, sc, seed, k, rs);
+        { // the reported accelerations are the time derivative of the reported velocities along qdot = N u, udot = UD
+          // (fourth-order central difference; this is what makes the bias Jdot*u the derivative of J*u: a wrong HDot / Coriolis
+          //  term of one mobilizer is consistent between calcBodyAccelerationFromUDot and calcBiasForSystemJacobian)
+          const Real h = 1e-3; const Real cf[4] = { 1.0 / 12, -8.0 / 12, 8.0 / 12, -1.0 / 12 }; const Real st[4] = { -2, -1, 1, 2 };
+          std::vector<SpatialVec> dV(NB, SpatialVec(Vec3(0), Vec3(0))); const Vector qd = s.getQDot();
+          for (int j = 0; j < 4; ++j) { State sp = s; sp.updQ() += st[j] * h * qd; sp.updU() += st[j] * h * UD; rs.sys.realize(sp, Stage::Velocity);
+              for (MobilizedBodyIndex b(0); b < NB; ++b) dV[b] += cf[j] * m.getMobilizedBody(b).getBodyVelocity(sp); }
+          Real ea = 0, sa = 0; for (int b = 0; b < NB; ++b) { ea = std::max(ea, (dV[b] / h - A[b]).norm()); sa = std::max(sa, A[b].norm()); }
+          ++evals; if (!(ea <= 1e-6 * (1 + sa))) { if (fails++ < 8) { std::printf("FAIL C04 A=d/dt(V) err=%.6g seed=%llu system=%d euler=%d mobilizers=", ea, seed, k, (int)rs.euler);
+              for (size_t i = 0; i < rs.types.size(); ++i) std::printf("%s%s,", MOBTYPES[rs.types[i]], rs.revs[i] ? "(rev)" : ""); std::printf("\n"); } } }
         { // station Jacobian adjoint with repeated bodies
           int nt = 4; Array_<MobilizedBodyIndex> tb; Array_<Vec3> ts; Vector_<Vec3> tf(nt);
           for (int i = 0; i < nt; ++i) { tb.push_back(MobilizedBodyIndex(r.I(0, NB - 1))); ts.push_back(r.v3(0.5)); tf[i] = r.v3(); }
